@@ -32,7 +32,7 @@ Proof.
   match type of H with context [rp_try_cands ?a ?b ?c] => destruct (rp_try_cands a b c) as [s3 found] eqn:E3 end.
   destruct found.
   - inversion H; subst s'. eapply rdm_try_cands_found; eassumption.
-  - eapply IH; eassumption.
+  - destruct (e - RpEnd_window =? 0); [discriminate |]. eapply IH; eassumption.
 Qed.
 
 Lemma rdm_rr_inv_of : forall s, rp_flen s = rp_len (rp_file s) -> rp_r_valid (rp_r s) = false -> rr_inv s.
